@@ -261,4 +261,472 @@ theorem unescape_eq (d : Bytes) (fuel : Nat) (h : d.length < fuel) :
   rw [unescapeGo_eqC d fuel h, unescapeC_eq]
   cases Frame.unescape d <;> rfl
 
+/-! ### utils.Bcd2Dec never panics -/
+
+theorem nibble_ok (fuel : Nat) (n : UInt8) : ∃ c, utils_nibbleToHexChar fuel n = X.ok c := by
+  unfold utils_nibbleToHexChar utils_nibbleToHexChar_j1
+  repeat' split
+  all_goals exact ⟨_, rfl⟩
+
+theorem bcd_loop (d : Bytes) : ∀ (fuel i : Nat) (out : Bytes), i ≤ d.length → out.length = 2 * d.length → d.length - i < fuel →
+    ∃ (o : Bytes) (k : Int), utils_bcdConvert_loop1 fuel d out ((2 * i : Nat) : Int) (i : Int) = X.ok (o, k) ∧ o.length = 2 * d.length
+  | 0, _, _, _, _, h => by omega
+  | fuel + 1, i, out, hi, ho, hf => by
+    unfold utils_bcdConvert_loop1
+    by_cases hlt : i < d.length
+    · have hc : decide ((i : Int) < len d) = true := decide_eq_true (by show ((i : Int) < (d.length : Int)); omega)
+      simp only [hc, if_true, idx_lt d i hlt, X.bind_ok]
+      obtain ⟨c1, h1⟩ := nibble_ok fuel (d[i] >>> 4)
+      obtain ⟨c2, h2⟩ := nibble_ok fuel (d[i] &&& 15)
+      have e1 : (((2 * i : Nat) : Int) + (1 : Int)) = ((2 * i + 1 : Nat) : Int) := by omega
+      have e2 : (((2 * i + 1 : Nat) : Int) + (1 : Int)) = ((2 * (i + 1) : Nat) : Int) := by omega
+      have e3 : ((i : Int) + (1 : Int)) = ((i + 1 : Nat) : Int) := by omega
+      simp only [h1, h2, X.bind_ok, setIdx_ok out (2 * i) c1 (by omega), e1,
+        setIdx_ok (out.set (2 * i) c1) (2 * i + 1) c2 (by simp; omega), e2, e3]
+      exact bcd_loop d fuel (i + 1) _ (by omega) (by simp [ho]) (by omega)
+    · have hc : decide ((i : Int) < len d) = false := decide_eq_false (by show ¬ ((i : Int) < (d.length : Int)); omega)
+      simp only [hc, Bool.false_eq_true, if_false]
+      exact ⟨out, _, rfl, ho⟩
+
+theorem indexNe_range (b : Bytes) (c : Byte) : indexNe b c = -1 ∨ (0 ≤ indexNe b c ∧ indexNe b c < (b.length : Int)) := by
+  unfold indexNe
+  cases h : b.findIdx? (· != c) with
+  | none => exact Or.inl rfl
+  | some i =>
+    have := (List.findIdx?_eq_some_iff_findIdx_eq.mp h).1
+    exact Or.inr (by simp only []; omega)
+
+theorem bcd2dec_ok (d : Bytes) (fuel : Nat) (h : d.length < fuel) : ∃ s, utils_Bcd2Dec fuel d = X.ok s := by
+  unfold utils_Bcd2Dec utils_bcdConvert
+  have hm : make ((2 : Int) * len d) = X.ok (List.replicate (2 * d.length) 0) := by
+    rw [show (2 : Int) * len d = ((2 * d.length : Nat) : Int) by show (2 : Int) * (d.length : Int) = _; omega, make_ok]
+  obtain ⟨o, k, hl, hlen⟩ := bcd_loop d fuel 0 (List.replicate (2 * d.length) 0) (by omega) (by simp) (by omega)
+  simp only [Nat.mul_zero, Int.natCast_zero] at hl
+  simp only [hm, X.bind_ok, hl]
+  rcases indexNe_range o 48 with h1 | ⟨h0, h1⟩
+  · simp [h1]
+  · have hne : (indexNe o 48 != (-1 : Int)) = true := by simp; omega
+    simp only [hne, if_true]
+    unfold sliceFrom
+    rw [slice_int o _ _ (by simp only [len_eq]; omega)]
+    exact ⟨_, rfl⟩
+
+/-! ### BodyProperty.decode, Header.decode, JTMessage.Decode -/
+
+theorem bp_decode_spec (fuel : Nat) (p0 : jt808_BodyProperty) (t : Bytes) (ht : t.length = 2) :
+    ∃ q, jt808_BodyProperty_decode fuel p0 t = X.ok q ∧ q.attribute_.toNat = beN t ∧
+      q.Version.toNat = beN t / 16384 % 2 ∧ q.PacketFragmented.toNat = beN t / 8192 % 2 ∧
+      q.EncryptMethod.toNat = beN t / 1024 % 2 ∧ q.BodyDayaLen.toNat = beN t % 1024 ∧
+      q.isSubPackage = decide (beN t / 8192 % 2 = 1) ∧ q.bit15 = 0 := by
+  obtain ⟨w, hw, hv⟩ := u16_two t ht
+  unfold jt808_BodyProperty_decode
+  simp only [hw, X.bind_ok]
+  refine ⟨_, rfl, hv, ?_, ?_, ?_, ?_, ?_, b15 w⟩
+  · simp only []; rw [b14, hv]
+  · simp only []; rw [b13, hv]
+  · simp only []; rw [b10, hv]
+  · simp only []; rw [b0, hv]
+  · simp only []
+    have := b13 w
+    rw [hv] at this
+    by_cases h : beN t / 8192 % 2 = 1
+    · simp only [h, decide_true, beq_iff_eq]
+      apply UInt8.toNat_inj.mp; rw [this, h]; rfl
+    · simp only [h, decide_false, beq_eq_false_iff_ne, ne_eq]
+      intro hc; apply h; rw [← this, hc]; rfl
+
+/-- the header part of `Frame.decodePlain`: the decoded header and where the body starts -/
+def hdrM (p : Bytes) : Option (Header × Nat) :=
+  if p.length < 4 then none else
+  let id := be16 (p.getD 0 0) (p.getD 1 0)
+  let attr := be16 (p.getD 2 0) (p.getD 3 0)
+  let version := attr / 16384 % 2
+  let frag := attr / 8192 % 2
+  let encrypt := attr / 1024 % 2
+  let bodyLen := attr % 1024
+  let start := if version = 1 then 5 else 4
+  let phoneLen := if version = 1 then 10 else 6
+  if p.length < start + phoneLen + 2 then none else
+  let bcd := (p.drop start).take phoneLen
+  let serial := be16 (p.getD (start + phoneLen) 0) (p.getD (start + phoneLen + 1) 0)
+  if frag = 1 ∧ p.length < start + phoneLen + 6 then none else
+  let sum := if frag = 1 then be16 (p.getD (start + phoneLen + 2) 0) (p.getD (start + phoneLen + 3) 0) else 0
+  let no := if frag = 1 then be16 (p.getD (start + phoneLen + 4) 0) (p.getD (start + phoneLen + 5) 0) else 0
+  let headEnd := start + phoneLen + 2 + (if frag = 1 then 4 else 0)
+  some ({ id, attr, version, frag, encrypt, bodyLen, bcd, serial, sum, no }, headEnd)
+
+theorem decodePlain_split (p : Bytes) : decodePlain p = match hdrM p with
+    | none => .err
+    | some (h, he) => if he + h.bodyLen + 1 ≠ p.length then .err else
+        .ok { h := h, body := (p.drop he).take h.bodyLen, verify := p.getD (he + h.bodyLen) 0 } := by
+  unfold decodePlain hdrM
+  simp only []
+  by_cases h4 : p.length < 4
+  · simp only [h4, if_true]
+  · simp only [h4, if_false]
+    generalize be16 (p.getD 2 0) (p.getD 3 0) = attr
+    by_cases h2 : p.length < (if attr / 16384 % 2 = 1 then 5 else 4) + (if attr / 16384 % 2 = 1 then 10 else 6) + 2
+    · simp only [h2, if_true]
+    · simp only [h2, if_false]
+      by_cases h3 : attr / 8192 % 2 = 1 ∧ p.length < (if attr / 16384 % 2 = 1 then 5 else 4) + (if attr / 16384 % 2 = 1 then 10 else 6) + 6
+      · simp only [h3, and_self, if_true]
+      · simp only [h3, if_false]
+
+theorem beN_seg (p : Bytes) (i : Nat) (h : i + 2 ≤ p.length) :
+    beN ((p.drop i).take (i + 2 - i)) = be16 (p.getD i 0) (p.getD (i + 1) 0) := by
+  rw [show i + 2 - i = 2 by omega, take2_drop p i h, beN_two]
+
+theorem j2_spec (fuel : Nat) (h : jt808_Header) (p : Bytes) (start phoneLen : Nat) (version : UInt8)
+    (hlen : start + phoneLen + 2 ≤ p.length) (hf : p.length < fuel) :
+    (h.Property.isSubPackage = true → p.length < start + phoneLen + 6 →
+      ∃ h' e, jt808_Header_decode_j2 fuel h p (start : Int) (phoneLen : Int) version = X.ok (h', some e)) ∧
+    ((h.Property.isSubPackage = true → start + phoneLen + 6 ≤ p.length) →
+      ∃ h', jt808_Header_decode_j2 fuel h p (start : Int) (phoneLen : Int) version = X.ok (h', none) ∧
+        h'.ID = h.ID ∧ h'.Property = h.Property ∧ h'.ProtocolVersion = version ∧ h'.ReplyID = h.ReplyID ∧
+        h'.PlatformSerialNumber = h.PlatformSerialNumber ∧
+        h'.bcdTerminalPhoneNo = (p.drop start).take phoneLen ∧
+        h'.SerialNumber.toNat = be16 (p.getD (start + phoneLen) 0) (p.getD (start + phoneLen + 1) 0) ∧
+        h'.SubPackageSum.toNat = (if h.Property.isSubPackage then be16 (p.getD (start + phoneLen + 2) 0) (p.getD (start + phoneLen + 3) 0) else 0) ∧
+        h'.SubPackageNo.toNat = (if h.Property.isSubPackage then be16 (p.getD (start + phoneLen + 4) 0) (p.getD (start + phoneLen + 5) 0) else 0) ∧
+        h'.headEnd = ((start + phoneLen + 2 + (if h.Property.isSubPackage then 4 else 0) : Nat) : Int)) := by
+  unfold jt808_Header_decode_j2
+  have a1 : (start : Int) + (phoneLen : Int) = ((start + phoneLen : Nat) : Int) := by omega
+  have a2 : ((start + phoneLen : Nat) : Int) + (2 : Int) = ((start + phoneLen + 2 : Nat) : Int) := by omega
+  have a4 : ((start + phoneLen : Nat) : Int) + (4 : Int) = ((start + phoneLen + 4 : Nat) : Int) := by omega
+  have a6 : ((start + phoneLen : Nat) : Int) + (6 : Int) = ((start + phoneLen + 6 : Nat) : Int) := by omega
+  simp only [a1, a2, a4, a6]
+  rw [slice_ok p start (start + phoneLen) (by omega) (by omega), slice_ok p (start + phoneLen) (start + phoneLen + 2) (by omega) (by omega)]
+  simp only [X.bind_ok]
+  obtain ⟨s, hs⟩ := bcd2dec_ok ((p.drop start).take (start + phoneLen - start)) fuel (by simp; omega)
+  have l1 : ((p.drop (start + phoneLen)).take (start + phoneLen + 2 - (start + phoneLen))).length = 2 := by simp; omega
+  obtain ⟨ws, hws, hvs⟩ := u16_two _ l1
+  rw [beN_seg p (start + phoneLen) hlen] at hvs
+  simp only [hs, X.bind_ok, hws]
+  have ebcd : (p.drop start).take (start + phoneLen - start) = (p.drop start).take phoneLen := by rw [show start + phoneLen - start = phoneLen by omega]
+  by_cases hsub : h.Property.isSubPackage = true
+  · simp only [hsub, if_true]
+    constructor
+    · intro _ hshort
+      have c : decide (len p < ((start + phoneLen + 6 : Nat) : Int)) = true := decide_eq_true (by show ((p.length : Int) < _); omega)
+      simp only [c, if_true]
+      exact ⟨_, _, rfl⟩
+    · intro hlong
+      have hl6 := hlong trivial
+      have c : decide (len p < ((start + phoneLen + 6 : Nat) : Int)) = false := decide_eq_false (by show ¬ ((p.length : Int) < _); omega)
+      simp only [c, Bool.false_eq_true, if_false]
+      unfold jt808_Header_decode_j1
+      simp only [a1, a2, a4, a6]
+      rw [slice_ok p (start + phoneLen + 2) (start + phoneLen + 4) (by omega) (by omega), slice_ok p (start + phoneLen + 4) (start + phoneLen + 6) (by omega) (by omega)]
+      simp only [X.bind_ok]
+      have l2 : ((p.drop (start + phoneLen + 2)).take (start + phoneLen + 4 - (start + phoneLen + 2))).length = 2 := by simp; omega
+      have l3 : ((p.drop (start + phoneLen + 4)).take (start + phoneLen + 6 - (start + phoneLen + 4))).length = 2 := by simp; omega
+      obtain ⟨w2, hw2, hv2⟩ := u16_two _ l2
+      obtain ⟨w3, hw3, hv3⟩ := u16_two _ l3
+      have g2 := beN_seg p (start + phoneLen + 2) (by omega)
+      have g3 := beN_seg p (start + phoneLen + 4) (by omega)
+      rw [show start + phoneLen + 2 + 2 = start + phoneLen + 4 by omega] at g2
+      rw [show start + phoneLen + 4 + 2 = start + phoneLen + 6 by omega] at g3
+      rw [g2] at hv2; rw [g3] at hv3
+      simp only [hw2, hw3, X.bind_ok]
+      refine ⟨_, rfl, rfl, rfl, rfl, rfl, rfl, ebcd, hvs, ?_, ?_, ?_⟩
+      · simpa using hv2
+      · simpa using hv3
+      · simp only []; omega
+  · simp only [hsub, Bool.false_eq_true, if_false]
+    constructor
+    · intro hc; exact hc.elim
+    · intro _
+      refine ⟨_, rfl, rfl, rfl, rfl, rfl, rfl, ebcd, hvs, ?_, ?_, ?_⟩
+      · simp
+      · simp
+      · simp
+
+def RepH (h : jt808_Header) (m : Header) : Prop :=
+  h.ID.toNat = m.id ∧ h.Property.attribute_.toNat = m.attr ∧ h.Property.Version.toNat = m.version ∧
+  h.Property.PacketFragmented.toNat = m.frag ∧ h.Property.EncryptMethod.toNat = m.encrypt ∧
+  h.Property.BodyDayaLen.toNat = m.bodyLen ∧ h.bcdTerminalPhoneNo = m.bcd ∧ h.SerialNumber.toNat = m.serial ∧
+  h.SubPackageSum.toNat = m.sum ∧ h.SubPackageNo.toNat = m.no ∧ h.ProtocolVersion = (if m.version = 1 then 3 else 2)
+
+theorem header_decode_spec (fuel : Nat) (h0 : jt808_Header) (p : Bytes) (hf : p.length < fuel) :
+    match hdrM p with
+    | none => ∃ h e, jt808_Header_decode fuel h0 p = X.ok (h, some e)
+    | some (m, he) => ∃ h, jt808_Header_decode fuel h0 p = X.ok (h, none) ∧ RepH h m ∧ h.headEnd = (he : Int) ∧
+        h.ReplyID = h0.ReplyID ∧ h.PlatformSerialNumber = h0.PlatformSerialNumber ∧ h.Property.bit15 = 0 := by
+  unfold jt808_Header_decode hdrM
+  by_cases h4 : p.length < 4
+  · have c4 : decide (len p < (4 : Int)) = true := decide_eq_true (by show ((p.length : Int) < 4); omega)
+    simp only [h4, if_true, c4]
+    exact ⟨_, _, rfl⟩
+  · have c4 : decide (len p < (4 : Int)) = false := decide_eq_false (by show ¬ ((p.length : Int) < 4); omega)
+    simp only [h4, if_false, c4, Bool.false_eq_true]
+    unfold jt808_Header_decode_j3
+    rw [slice_int p 0 2 (by omega), slice_int p 2 4 (by omega)]
+    simp only [X.bind_ok, show (0 : Int).toNat = 0 from rfl, show (2 : Int).toNat = 2 from rfl, show (4 : Int).toNat = 4 from rfl]
+    have l1 : ((p.drop 0).take (2 - 0)).length = 2 := by simp; omega
+    have l2 : ((p.drop 2).take (4 - 2)).length = 2 := by simp; omega
+    obtain ⟨wid, hwid, hvid⟩ := u16_two _ l1
+    obtain ⟨q, hq, hqa, hqv, hqf, hqe, hql, hqs, hq15⟩ := bp_decode_spec fuel h0.Property _ l2
+    have g0 := beN_seg p 0 (by omega)
+    have g2 := beN_seg p 2 (by omega)
+    simp only [Nat.zero_add, Nat.sub_zero] at g0
+    rw [show (2 : Nat) + 2 = 4 from rfl, show (2 : Nat) + 1 = 3 from rfl] at g2
+    rw [show (2 : Nat) - 0 = 2 from rfl, g0] at hvid
+    rw [g2] at hqa hqv hqf hqe hql hqs
+    simp only [hwid, X.bind_ok, hq]
+    generalize be16 (p.getD 2 0) (p.getD 3 0) = attr at *
+    by_cases hv : attr / 16384 % 2 = 1
+    · have qv : (q.Version == (1 : UInt8)) = true := by
+        rw [beq_iff_eq]; apply UInt8.toNat_inj.mp; rw [hqv, hv]; rfl
+      simp only [qv, if_true, X.bind_ok, hv]
+      have J := j2_spec fuel { h0 with ID := wid, Property := q } p 5 10 3
+      simp only [Int.cast_ofNat_Int] at J
+      by_cases hl : p.length < 5 + 10 + 2
+      · have c : decide (len p < (5 : Int) + (10 : Int) + (2 : Int)) = true := decide_eq_true (by show ((p.length : Int) < _); omega)
+        simp only [hl, if_true, c]
+        exact ⟨_, _, rfl⟩
+      · have c : decide (len p < (5 : Int) + (10 : Int) + (2 : Int)) = false := decide_eq_false (by show ¬ ((p.length : Int) < _); omega)
+        simp only [hl, if_false, c, Bool.false_eq_true]
+        obtain ⟨J1, J2⟩ := J (by omega) hf
+        by_cases h3 : attr / 8192 % 2 = 1 ∧ p.length < 5 + 10 + 6
+        · simp only [h3, and_self, if_true]
+          exact J1 (by simp [hqs, h3.1]) h3.2
+        · simp only [h3, if_false]
+          obtain ⟨h', e, r1, r2, r3, r4, r5, r6, r7, r8, r9, r10⟩ := J2 (by intro hs; simp [hqs] at hs; omega)
+          refine ⟨h', e, ?_, ?_, r4, r5, by rw [r2]; exact hq15⟩
+          · unfold RepH
+            simp only [r1, r2, r3, r6, r7, r8, r9, hvid, hqa, hqv, hqf, hqe, hql, hqs, hv]
+            by_cases hfr : attr / 8192 % 2 = 1 <;> simp [hfr]
+          · rw [r10]; simp only [hqs]; by_cases hfr : attr / 8192 % 2 = 1 <;> simp [hfr]  --done
+    · have qv : (q.Version == (1 : UInt8)) = false := by
+        rw [beq_eq_false_iff_ne]; intro hc; apply hv; rw [← hqv, hc]; rfl
+      simp only [qv, Bool.false_eq_true, if_false, X.bind_ok, hv]
+      have J := j2_spec fuel { h0 with ID := wid, Property := q } p 4 6 2
+      simp only [Int.cast_ofNat_Int] at J
+      by_cases hl : p.length < 4 + 6 + 2
+      · have c : decide (len p < (4 : Int) + (6 : Int) + (2 : Int)) = true := decide_eq_true (by show ((p.length : Int) < _); omega)
+        simp only [hl, if_true, c]
+        exact ⟨_, _, rfl⟩
+      · have c : decide (len p < (4 : Int) + (6 : Int) + (2 : Int)) = false := decide_eq_false (by show ¬ ((p.length : Int) < _); omega)
+        simp only [hl, if_false, c, Bool.false_eq_true]
+        obtain ⟨J1, J2⟩ := J (by omega) hf
+        by_cases h3 : attr / 8192 % 2 = 1 ∧ p.length < 4 + 6 + 6
+        · simp only [h3, and_self, if_true]
+          exact J1 (by simp [hqs, h3.1]) h3.2
+        · simp only [h3, if_false]
+          obtain ⟨h', e, r1, r2, r3, r4, r5, r6, r7, r8, r9, r10⟩ := J2 (by intro hs; simp [hqs] at hs; omega)
+          refine ⟨h', e, ?_, ?_, r4, r5, by rw [r2]; exact hq15⟩
+          · unfold RepH
+            simp only [r1, r2, r3, r6, r7, r8, r9, hvid, hqa, hqv, hqf, hqe, hql, hqs, hv]
+            by_cases hfr : attr / 8192 % 2 = 1 <;> simp [hfr]
+          · rw [r10]; simp only [hqs]; by_cases hfr : attr / 8192 % 2 = 1 <;> simp [hfr]  --done
+
+theorem unescBody_length : ∀ (l r : Bytes), unescBody l = some r → r.length ≤ l.length
+  | [], r, h => by simp [unescBody] at h; subst h; simp
+  | [b], r, h => by simp [unescBody] at h; subst h; simp
+  | b :: c :: t, r, h => by
+    by_cases hb : b = 0x7d
+    · subst hb
+      by_cases h1 : c = 0x01
+      · subst h1
+        rw [unescBody_7d_01, Option.map_eq_some_iff] at h
+        obtain ⟨r', hr, rfl⟩ := h
+        have := unescBody_length t r' hr
+        simp only [List.length_cons]; omega
+      · by_cases h2 : c = 0x02
+        · subst h2
+          rw [unescBody_7d_02, Option.map_eq_some_iff] at h
+          obtain ⟨r', hr, rfl⟩ := h
+          have := unescBody_length t r' hr
+          simp only [List.length_cons]; omega
+        · rw [unescBody_7d_other c t h1 h2] at h; exact absurd h (by simp)
+    · rw [unescBody_cons_ne b (c :: t) hb, Option.map_eq_some_iff] at h
+      obtain ⟨r', hr, rfl⟩ := h
+      have := unescBody_length (c :: t) r' hr
+      simp only [List.length_cons] at this ⊢; omega
+
+theorem unescape_length (f p : Bytes) (h : Frame.unescape f = some p) : p.length ≤ f.length := by
+  unfold Frame.unescape at h
+  cases hi : inner? f with
+  | none => simp [hi] at h
+  | some i =>
+    simp only [hi] at h
+    have h1 := unescBody_length i p h
+    have h2 : i.length ≤ f.length := by
+      unfold inner? at hi
+      cases f with
+      | nil => simp at hi
+      | cons b r =>
+        simp only at hi
+        split at hi
+        · injection hi with hi; subst hi; simp; omega
+        · simp at hi
+    omega
+
+/-- a decoded Go message carries exactly the fields of the model's message -/
+def Rep (j : jt808_JTMessage) (m : Msg) : Prop := RepH j.Header m.h ∧ j.Body = m.body ∧ j.VerifyCode = m.verify
+
+/-- **`JTMessage.Decode` as translated from the source is the model `Frame.decode`**: it accepts exactly the frames
+the model accepts and fills in the same fields; it reports an error exactly where the model does; it never panics and
+never runs out of fuel. `ReplyID` and `PlatformSerialNumber` of the receiver are not touched. -/
+theorem decode_go (fuel : Nat) (j0 : jt808_JTMessage) (f : Bytes) (hf : f.length < fuel) :
+    match Frame.decode f with
+    | .ok m => ∃ j, jt808_JTMessage_Decode fuel j0 f = X.ok (j, none) ∧ Rep j m ∧
+        j.Header.ReplyID = j0.Header.ReplyID ∧ j.Header.PlatformSerialNumber = j0.Header.PlatformSerialNumber ∧
+        j.Header.Property.bit15 = 0
+    | .err => ∃ j e, jt808_JTMessage_Decode fuel j0 f = X.ok (j, some e)
+    | .panic => False := by
+  unfold jt808_JTMessage_Decode Frame.decode
+  rw [unescape_eq f fuel hf]
+  cases hu : Frame.unescape f with
+  | none => exact ⟨_, _, rfl⟩
+  | some p =>
+    have hp : p.length < fuel := by have := unescape_length f p hu; omega
+    simp only [X.bind_ok, Option.isSome_none, Bool.false_eq_true, if_false]
+    unfold jt808_JTMessage_Decode_j4
+    rw [createVerifyCode_eq p fuel hp]
+    simp only [X.bind_ok]
+    by_cases hx : xorAll p = 0
+    · have c : (xorAll p != (0 : UInt8)) = false := by simp [hx]
+      simp only [hx, bne_self_eq_false, Bool.false_eq_true, if_false, ne_eq, not_true_eq_false]
+      unfold jt808_JTMessage_Decode_j3
+      have H := header_decode_spec fuel j0.Header p hp
+      rw [decodePlain_split]
+      cases hh : hdrM p with
+      | none =>
+        rw [hh] at H
+        obtain ⟨h, e, he⟩ := H
+        simp only [he, X.bind_ok, Option.isSome_some, if_true]
+        exact ⟨_, _, rfl⟩
+      | some mh =>
+        obtain ⟨m, hend⟩ := mh
+        rw [hh] at H
+        obtain ⟨h, he, hrep, hhe, k1, k2, k3⟩ := H
+        simp only [he, X.bind_ok, Option.isSome_none, Bool.false_eq_true, if_false]
+        unfold jt808_JTMessage_Decode_j2
+        have hbl : h.Property.BodyDayaLen.toNat = m.bodyLen := hrep.2.2.2.2.2.1
+        simp only [hhe, hbl]
+        have ee : ((hend : Int) + Int.ofNat m.bodyLen) = ((hend + m.bodyLen : Nat) : Int) := by simp
+        have e1 : (((hend + m.bodyLen : Nat) : Int) + (1 : Int)) = ((hend + m.bodyLen + 1 : Nat) : Int) := by omega
+        rw [ee, e1]
+        by_cases hl : hend + m.bodyLen + 1 ≠ p.length
+        · have c2 : (((hend + m.bodyLen + 1 : Nat) : Int) != len p) = true := by
+            simp only [len_eq, bne_iff_ne, ne_eq, Int.natCast_inj]; exact hl
+          simp only [c2, if_true, hl, ne_eq, not_false_eq_true]
+          exact ⟨_, _, rfl⟩
+        · have hl' : hend + m.bodyLen + 1 = p.length := by omega
+          have c2 : (((hend + m.bodyLen + 1 : Nat) : Int) != len p) = false := by
+            simp only [len_eq, hl', bne_self_eq_false]
+          simp only [hl', len_eq, bne_self_eq_false, Bool.false_eq_true, if_false, ne_eq, not_true_eq_false]
+          unfold jt808_JTMessage_Decode_j1
+          rw [slice_ok p hend (hend + m.bodyLen) (by omega) (by omega), idx_lt p (hend + m.bodyLen) (by omega)]
+          simp only [X.bind_ok]
+          refine ⟨_, rfl, ⟨?_, ?_, ?_⟩, ?_, ?_, ?_⟩
+          · exact hrep
+          · simp only []; rw [show hend + m.bodyLen - hend = m.bodyLen by omega]
+          · simp only []; rw [List.getD_eq_getElem?_getD, List.getElem?_eq_getElem (by omega)]; rfl
+          · exact k1
+          · exact k2
+          · exact k3
+    · have c : (xorAll p != (0 : UInt8)) = true := by simp [hx]
+      simp only [c, if_true, hx, ne_eq, not_false_eq_true]
+      exact ⟨_, _, rfl⟩
+
+/-! ### Header.Encode -/
+
+theorem be16_toBE (v : UInt16) : Go.be16 v = toBE 2 v.toNat := by
+  have := v.toNat_lt
+  unfold Go.be16 toBE toBE toBE
+  simp only [List.cons.injEq, and_true]
+  constructor
+  · apply UInt8.toNat_inj.mp
+    simp only [UInt16.toNat_toUInt8, UInt16.toNat_shiftRight, UInt8.toNat_ofNat', Nat.shiftRight_eq_div_pow]
+    rw [show (8 : UInt16).toNat % 16 = 8 by decide]; omega
+  · apply UInt8.toNat_inj.mp
+    simp only [UInt16.toNat_toUInt8, UInt8.toNat_ofNat']; omega
+
+theorem attr_word (ver enc : UInt8) (n : Nat) (hv : ver.toNat = 0 ∨ ver.toNat = 1) (he : enc.toNat = 0 ∨ enc.toNat = 1) :
+    (((((((0 : UInt8).toUInt16 <<< (15 : UInt16)) ||| (ver.toUInt16 <<< (14 : UInt16))) ||| ((0 : UInt8).toUInt16 <<< (13 : UInt16))) |||
+      (enc.toUInt16 <<< (10 : UInt16))) ||| UInt16.ofInt (n : Int))).toNat =
+      ((ver.toNat * 16384 + 0 * 8192 + enc.toNat * 1024) ||| (n % 65536)) % 65536 := by
+  have hn : (UInt16.ofInt (n : Int)).toNat = n % 65536 := by simp [UInt16.ofInt]; omega
+  have hv' : ver = 0 ∨ ver = 1 := by
+    rcases hv with h | h
+    · left; apply UInt8.toNat_inj.mp; rw [h]; rfl
+    · right; apply UInt8.toNat_inj.mp; rw [h]; rfl
+  have he' : enc = 0 ∨ enc = 1 := by
+    rcases he with h | h
+    · left; apply UInt8.toNat_inj.mp; rw [h]; rfl
+    · right; apply UInt8.toNat_inj.mp; rw [h]; rfl
+  have hlt : n % 65536 < 2 ^ 16 := by omega
+  rcases hv' with rfl | rfl <;> rcases he' with rfl | rfl <;>
+    simp only [UInt16.toNat_or, hn] <;>
+    (rw [Nat.mod_eq_of_lt (Nat.or_lt_two_pow (by decide) hlt)]) <;> rfl
+
+theorem put_first (v : UInt16) : putU16At [0, 0, 0, 0] (0 : Int) (2 : Int) v = X.ok [(v >>> 8).toUInt8, v.toUInt8, 0, 0] := by
+  unfold putU16At; simp [Go.be16]
+theorem put_second (a b : Byte) (v : UInt16) : putU16At [a, b, 0, 0] (2 : Int) (4 : Int) v = X.ok [a, b, (v >>> 8).toUInt8, v.toUInt8] := by
+  unfold putU16At; simp [Go.be16]
+
+/-- **`Header.Encode` as translated from the source is the model `Frame.encode`**, for a header that represents a model
+header (in particular any header `JTMessage.Decode` produced): the frame is the model's frame, nothing panics. -/
+theorem encode_go (fuel : Nat) (h : jt808_Header) (m : Header) (body : Bytes) (hrep : RepH h m)
+    (hb15 : h.Property.bit15 = 0) (hv : m.version = 0 ∨ m.version = 1) (he : m.encrypt = 0 ∨ m.encrypt = 1)
+    (hf : 8 + m.bcd.length + body.length < fuel) :
+    ∃ h', jt808_Header_Encode fuel h body =
+      X.ok (h', Frame.encode m h.ReplyID.toNat h.PlatformSerialNumber.toNat body) := by
+  obtain ⟨rid, rattr, rver, rfrag, renc, rlen, rbcd, rser, rsum, rno, rpv⟩ := hrep
+  unfold jt808_Header_Encode
+  have hm : make (4 : Int) = X.ok [0, 0, 0, 0] := rfl
+  rw [hm]
+  simp only [X.bind_ok]
+  -- the message id
+  have hid : ∃ idv : UInt16, ((if (h.ReplyID == (0 : UInt16)) = true then (X.ok h.ID : X UInt16) else X.ok h.ReplyID) = X.ok idv) ∧
+      idv.toNat = (if h.ReplyID.toNat = 0 then m.id else h.ReplyID.toNat) := by
+    by_cases hr : h.ReplyID = 0
+    · refine ⟨h.ID, by simp [hr], ?_⟩
+      simp [hr, rid]
+    · refine ⟨h.ReplyID, by simp [hr], ?_⟩
+      have : h.ReplyID.toNat ≠ 0 := fun hc => hr (UInt16.toNat_inj.mp (by rw [hc]; rfl))
+      simp [this]
+  obtain ⟨idv, hidv, hidn⟩ := hid
+  simp only [hidv, X.bind_ok, put_first]
+  unfold jt808_BodyProperty_encode
+  simp only [X.bind_ok, put_second, hb15]
+  -- the version byte
+  have hpv : (h.ProtocolVersion == (3 : UInt8)) = decide (m.version = 1) := by
+    rw [rpv]; rcases hv with h0 | h1
+    · simp [h0]
+    · simp [h1]
+  have hver : ∀ (d : Bytes), ((if (h.ProtocolVersion == (3 : UInt8)) = true then (X.ok (d ++ [(1 : UInt8)]) : X Bytes) else X.ok d)) =
+      X.ok (d ++ (if m.version = 1 then [0x01] else [])) := by
+    intro d; rw [hpv]; by_cases h1 : m.version = 1 <;> simp [h1]
+  simp only [hver, X.bind_ok]
+  -- the attribute word
+  have hw := attr_word h.Property.Version h.Property.EncryptMethod body.length (by rw [rver]; exact hv) (by rw [renc]; exact he)
+  rw [rver, renc] at hw
+  have hlen : (UInt16.ofInt (len body)) = UInt16.ofInt (body.length : Int) := rfl
+  generalize hword : ((((((0 : UInt8).toUInt16 <<< (15 : UInt16)) ||| (h.Property.Version.toUInt16 <<< (14 : UInt16))) ||| ((0 : UInt8).toUInt16 <<< (13 : UInt16))) |||
+      (h.Property.EncryptMethod.toUInt16 <<< (10 : UInt16))) ||| UInt16.ofInt (body.length : Int)) = word at hw
+  simp only [hlen, hword]
+  -- the plain frame
+  have hplain : ([(idv >>> 8).toUInt8, idv.toUInt8, (word >>> 8).toUInt8, word.toUInt8] ++ (if m.version = 1 then [0x01] else []) ++
+      h.bcdTerminalPhoneNo ++ [(h.PlatformSerialNumber >>> (8 : UInt16)).toUInt8, h.PlatformSerialNumber.toUInt8] ++ body) =
+      encodePlain m h.ReplyID.toNat h.PlatformSerialNumber.toNat body := by
+    unfold encodePlain
+    have e1 := be16_toBE idv
+    have e2 := be16_toBE word
+    have e3 := be16_toBE h.PlatformSerialNumber
+    unfold Go.be16 at e1 e2 e3
+    rw [show [(idv >>> 8).toUInt8, idv.toUInt8, (word >>> 8).toUInt8, word.toUInt8] =
+      [(idv >>> 8).toUInt8, idv.toUInt8] ++ [(word >>> 8).toUInt8, word.toUInt8] from rfl, e1, e2, e3, hidn, hw, rbcd]
+  generalize hd : ([(idv >>> 8).toUInt8, idv.toUInt8, (word >>> 8).toUInt8, word.toUInt8] ++ (if m.version = 1 then [0x01] else []) ++
+      h.bcdTerminalPhoneNo ++ [(h.PlatformSerialNumber >>> (8 : UInt16)).toUInt8, h.PlatformSerialNumber.toUInt8] ++ body) = d at hplain
+  have hdl : d.length ≤ 4 + 1 + m.bcd.length + 2 + body.length := by
+    rw [← hd, ← rbcd]; simp only [List.length_append, List.length_cons, List.length_nil]; split <;> simp <;> omega
+  rw [createVerifyCode_eq d fuel (by omega)]
+  simp only [X.bind_ok]
+  rw [escape_eq (d ++ [xorAll d]) fuel (by simp; omega)]
+  simp only [X.bind_ok]
+  exact ⟨_, by rw [Frame.encode, hplain]⟩
+
 end JT.Gen.GoFrame
